@@ -274,7 +274,7 @@ var shapes = []string{"tree", "chain-cycle", "self", "dag", "slice-cycle", "map-
 func TestCheck(t *testing.T) {
 	r := h.Start(t, "C02")
 	defer r.Finish()
-	r.Meta("rule", "graphs: node type with pointer, slice-, map-, array-of-pointer, interface{}, pointer-to-slice and pointer-to-map fields; shapes {tree, chain cycle, self loops through every field kind, depth-n binary DAG (unfolding 2^n), cycles through slices/maps/arrays/interfaces, shared container pointers, random} x sizes 1..40; encoded in reference mode, (1) each distinct node must appear as exactly one object body in the independent reader's parse, (2) the parse must be bisimilar to the Go graph (every r index resolves to the item meant), (3) decoding into *G and into interface{} must be bisimilar to the original, (4) stream length is bounded linearly in the number of nodes. reference soup: one item of every reference-counted kind placed before/between/after repeated strings and pointers, typed and interface{} destinations. distinct_nontrivial = distinct (shape,size,seed-derived graph) and (soup item kind, position) pairs")
+	r.Meta("rule", "graphs: node type with pointer, slice-, map-, array-of-pointer, interface{}, pointer-to-slice and pointer-to-map fields; shapes {tree, chain cycle, self loops through every field kind, depth-n binary DAG (unfolding 2^n), cycles through slices/maps/arrays/interfaces, shared container pointers, random} x sizes 1..40; encoded in reference mode, (1) each distinct node must appear as exactly one object body in the independent reader's parse, (2) the parse must be bisimilar to the Go graph (every r index resolves to the item meant), (3) decoding into *G and into interface{} must be bisimilar to the original, (4) stream length is bounded linearly in the number of nodes. reference soup: one item of every reference-counted kind placed before/between/after repeated strings and pointers, typed and interface{} destinations. distinct_nontrivial = distinct (shape,size,seed-derived graph) and (soup item kind, position) pairs Added: for each of the 14 key kinds a map to interface{} (shared pointer, shared list, shared string as values) and a map to string; \"each distinct object written once\" decided on the independently parsed stream (distinct objects per class, referable literals counted).")
 	r.Meta("assumptions", []string{
 		"cycles are closed through Go pointers (only pointers have identity in this encoder)",
 		"equality is bisimulation of unfoldings (visited-pair comparison); pointer identity after decoding is reported as a statistic only",
